@@ -432,6 +432,17 @@ fn o2p(tag: &str, evidence: &AtomicBool) -> String {
     }
 }
 
+/// std's order: the poison flag is set BEFORE the lock is released.  `exp` is set by a body that is about to panic
+/// while it holds the write guard, so whoever acquires the lock and then finds `exp` set came after that holder and
+/// must have been told Poisoned.  (Not in the O2 replay variants: there the flag is legitimately never set.)
+fn check_order(j: usize, what: &str, err: bool, exp: &AtomicBool) {
+    if !err && exp.load(SeqCst) && std::env::var("MAYV_O2TAG").is_err() && std::env::var("MAYV_NOORDER").is_err() {
+        mayv::ctx().fail(format!(
+            "coroutine {j}: {what} returned Ok although the previous holder panicked inside its write guard: the lock was released before the poison flag was set"
+        ));
+    }
+}
+
 fn check_obs(j: usize, what: &str, err: bool, vis_before: bool, exp: &AtomicBool, o2a: &AtomicBool, o2b: &AtomicBool) {
     let c = mayv::ctx();
     if err && !exp.load(SeqCst) {
@@ -479,6 +490,7 @@ fn body(sh: Arc<Sh>, j: usize) -> u64 {
                     Err(e) => (e.into_inner(), true),
                 };
                 check_obs(j, "Mutex::lock", err, vis, &l.exp_m, &l.o2a_m, &l.o2b_m);
+                check_order(j, "Mutex::lock", err, &l.exp_m);
                 after.stale.set(std::thread::panicking());
                 let occ = Occ::enter(l, LK::M, j);
                 *g += 1;
@@ -505,6 +517,7 @@ fn body(sh: Arc<Sh>, j: usize) -> u64 {
                     Err(e) => (e.into_inner(), true),
                 };
                 check_obs(j, "RwLock::write", err, vis, &l.exp_w, &l.o2a_w, &l.o2b_w);
+                check_order(j, "RwLock::write", err, &l.exp_w);
                 after.stale.set(std::thread::panicking());
                 let occ = Occ::enter(l, LK::W, j);
                 *g += 1;
@@ -528,6 +541,7 @@ fn body(sh: Arc<Sh>, j: usize) -> u64 {
                     Err(e) => (e.into_inner(), true),
                 };
                 check_obs(j, "RwLock::read", err, vis, &l.exp_w, &l.o2a_w, &l.o2b_w);
+                check_order(j, "RwLock::read", err, &l.exp_w);
                 let occ = Occ::enter(l, LK::R, j);
                 let _ = *g;
                 inside(op.inside);
